@@ -120,6 +120,20 @@ CHECKS["C12"] = dict(
                       "coefficients are multiples of 1/8 so float arithmetic is exact; time_indices ascending; values of "
                       "Currents are compared, not their Python type; JSON round trips are exercised but owned by C09.")
 
+CHECKS["C17"] = dict(
+    text="Tariff.tla + Calendar.tla (civil date <-> day number, weekday, 14 calendar types, checked by TLC as "
+         "CalendarTheorems over 1970-2037) on constants transcribed from the bundled JSON files at run time. A clock "
+         "state machine walks every day of all 14 calendar types for all five files: ExactlyOne, "
+         "PriceIsLatestBreakpoint, WrapEquivalence, SameDaySameSchedule, PriceChangesAtBreakpoints; a second machine "
+         "models get_tariffs / one simulation (VecAligned, CostIsSum, PeakIsMax). Every probe TLC visits is executed "
+         "through TimeOfUseTariff.get_tariff/get_demand_charge/get_tariffs, Interface.get_prices/get_demand_charge "
+         "inside a real simulation and analysis.energy_cost/demand_charge.",
+    tech="TLA+ specs (Tariff.tla, Calendar.tla) + TLC invariants/action properties + one implementation test per TLC state",
+    ref="5/C17", note="Trusted: TLC, Json module, Python datetime/pytz. Prices piecewise constant between probes "
+                      "(every breakpoint +-1 s/60 s, 00:00:00, 23:59:59, seeded seconds); years 1970-2037 represented by "
+                      "the first year of each calendar type; wall-clock semantics for aware datetimes; prices multiples "
+                      "of 1e-5 $, breakpoints on whole seconds.")
+
 NOT_APPLICABLE = []
 
 
